@@ -138,4 +138,51 @@ def rstep (cfg : Cfg) (s : RSt) : REv → Out (RSt × RAns × List Dgram)
     else if histReceived s.r then .ok (s, .ok [id], [])
     else .ok ({ s with waiters := s.waiters ++ [id] }, .none, [])
 
+/-! ### several matched writers: RtpsStatefulReader::is_historical_data_received is about ALL of them -/
+
+def proxyHistMissing (p : WProxy) : Bool := !proxyHistReceived p
+
+/-- stateful_reader.rs:157 `!self.matched_writers.iter().any(|p| !p.is_historical_data_received())` -/
+def histReceivedAll (ps : List WProxy) : Bool := !(ps.any proxyHistMissing)
+
+/-- one RTPS reader state per matched writer (the proxies are independent; the cache is kept per writer here) -/
+structure MSt where
+  ws : List (Nat × Reader)      -- (writer id, proxy + what was accepted from that writer)
+  reliable : Bool
+  volatile : Bool
+  waiters : List Nat
+deriving Repr
+
+def MSt.proxies (s : MSt) : List WProxy := s.ws.filterMap (fun x => x.2.proxy)
+
+inductive MEv where
+  | matchWriter (wid : Nat)
+  | sub (wid : Nat) (m : Sub)
+  | waitHist (id : Nat)
+
+def hasWid (wid : Nat) (x : Nat × Reader) : Bool := x.1 == wid
+
+def replaceWid (wid : Nat) (r : Reader) : List (Nat × Reader) → List (Nat × Reader)
+  | [] => []
+  | x :: xs => if x.1 = wid then (wid, r) :: xs else x :: replaceWid wid r xs
+
+def mstep (cfg : Cfg) (s : MSt) : MEv → Out (MSt × RAns × List Dgram)
+  | .matchWriter wid =>
+    if s.ws.any (hasWid wid) then .ok (s, .none, [])
+    else .ok ({ s with ws := s.ws ++ [(wid, ({ reliable := s.reliable, proxy := none, cache := [] } : Reader).addMatchedWriter cfg)] }, .none, [])
+  | .sub wid m =>
+    match s.ws.find? (hasWid wid) with
+    | none => .ok (s, .none, [])                      -- no matched writer with that GUID: ignored (but see the heartbeat arm)
+    | some x =>
+      match x.2.onSub cfg m with
+      | .panic => .panic
+      | .ok (r', out) =>
+        let s' := { s with ws := replaceWid wid r' s.ws }
+        if isHb m ∧ histReceivedAll s'.proxies then .ok ({ s' with waiters := [] }, .ok s.waiters, out)
+        else .ok (s', .none, out)
+  | .waitHist id =>
+    if s.volatile then .ok (s, .illegal id, [])
+    else if histReceivedAll s.proxies then .ok (s, .ok [id], [])
+    else .ok ({ s with waiters := s.waiters ++ [id] }, .none, [])
+
 end DustVerif.AckWait
